@@ -177,10 +177,6 @@ namespace c09
                                : (char)(i & 0xff);                            // position pattern
         return s;
     }
-    template <class Tup, size_t... I> void gen_members(Gen &g, Tup t, std::index_sequence<I...>)
-    {
-        (gen_into(g, std::get<I>(t)), ...);
-    }
     template <class T> T gen(Gen &g)
     {
         if constexpr (Scalar<T>)
@@ -498,6 +494,16 @@ namespace c09
                      vf::hex(ref.data() + d, ref.size() - d, 24).c_str());
         }
         VF_OK("encoded bytes == reference encoder of the stated layout");
+        std::string encw = Fw::enc(w), refw;
+        ref_enc(w, refw);
+        if (encw != refw)
+        {
+            snprintf(key, sizeof key, "layout:%s", tname);
+            size_t d = first_diff(encw, refw);
+            vf::fail(key, "value=%s: %zu bytes encoded, reference %zu bytes, first difference at offset %zu; encoded[%zu..]=%s reference[%zu..]=%s",
+                     shown(w).c_str(), encw.size(), refw.size(), d, d, vf::hex(encw.data() + d, encw.size() - d, 24).c_str(), d,
+                     vf::hex(refw.data() + d, refw.size() - d, 24).c_str());
+        }
         // (1) round trip through the one-shot API on an exact heap copy, and cursor == |enc|
         vf::Exact e(enc.data(), enc.size(), placement ? 0 : 1 + (unsigned)enc.size() % 5, placement != 0);
         snprintf(cls, sizeof cls, "%s:deserialize", tname);
@@ -526,7 +532,7 @@ namespace c09
         // (2) concatenation: enc(v) ++ enc(u32 sentinel) ++ enc(w) decodes in sequence
         {
             uint32_t sentinel = 0xC0FFEE00u | (uint32_t)(enc.size() & 0xff), sback = 0;
-            std::string encw = Fw::enc(w), stream = enc + Fw::enc(sentinel) + encw;
+            std::string stream = enc + Fw::enc(sentinel) + encw;
             vf::Exact es(stream.data(), stream.size(), placement ? 0 : 3, placement != 0);
             snprintf(cls, sizeof cls, "%s:concatenated", tname);
             vf::cls(cls);
